@@ -44,6 +44,12 @@ type c15Shared struct{ V int64 }
 // c15Obj is an object created inside a rule and kept in a local.
 type c15Obj struct{ id, bumps int64 }
 
+// c15Host3 / c15Inner3: receiver chain of a three-level call that reports the value it is given.
+type c15Inner3 struct{ log *obs.Log }
+type c15Host3 struct{ In *c15Inner3 }
+
+func (i *c15Inner3) Chk(n string, v int64) { i.log.Add("C", n, v) }
+
 func (o *c15Obj) Id() int64 { return o.id }
 func (o *c15Obj) Bump()     { o.bumps++ }
 
@@ -76,6 +82,9 @@ func (r C15Rule) text() string {
 	switch r.Kind {
 	case "writer":
 		fmt.Fprintf(&b, "  %s = uniq(@name)\n  gate(@name)\n  chk(@name, %s)\n  E(@name)\n", x, x)
+	case "writer3":
+		// the local is read as the argument of a three-level call written as a statement
+		fmt.Fprintf(&b, "  %s = uniq(@name)\n  gate(@name)\n  H3.In.Chk(@name, %s)\n  E(@name)\n", x, x)
 	case "objwriter":
 		// the local holds an object created by this execution and is the receiver of a method call
 		fmt.Fprintf(&b, "  %s = newobj(@name)\n  gate(@name)\n  chk(@name, %s.Id())\n  %s.Bump()\n  chk2(@name, %s.Id())\n  E(@name)\n", x, x, x, x)
@@ -114,12 +123,12 @@ func (r C15Rule) text() string {
 func init() {
 	register(&Prop{
 		ID:   "C15",
-		Rule: "rule sets of 2-7 rules that all use the same two local names: writers (x = uniq(); gate(); chk(x)), readers that never assign (must fail in every model and call), conditional writers driven by an injected flag that changes between calls, writers whose local holds an object they created and use as a method receiver, writers/readers of a shared injected struct field, rules whose forRange key variable is a pointer-injected name and rules that read that name; 2-3 calls per case over all execution models of engine and pool, DAG layers that repeat a rule, 2-3 simultaneous identical pool requests, writers parked on Hold gates between assignment and read; oracle: every chk receives exactly the value its own execution drew (multiset of drawn and checked values per rule equal, no value seen twice), a reader that never assigned never gets a value, a conditional writer fails whenever its flag is off even if an earlier call or a concurrent execution assigned the local, a shared field written by an earlier rule of a sorted call is seen by the later rule, an injected forRange key holds the last key afterwards - for the host, for the looping rule and for later rules of a sorted call. Two pointers are injected under the names X and Y, which differ only in case from the locals: they must keep their values and never serve as the locals. Non-trivial: >= 2 rules (or >= 2 concurrent executions of one rule) share a local name and a writer was parked; distinct by case hash",
+		Rule: "rule sets of 2-7 rules that all use the same two local names: writers (x = uniq(); gate(); chk(x)), readers that never assign (must fail in every model and call), conditional writers driven by an injected flag that changes between calls, writers that read their local as the argument of a three-level call statement, writers whose local holds an object they created and use as a method receiver, writers/readers of a shared injected struct field, rules whose forRange key variable is a pointer-injected name and rules that read that name; 2-3 calls per case over all execution models of engine and pool, DAG layers that repeat a rule, 2-3 simultaneous identical pool requests, writers parked on Hold gates between assignment and read; oracle: every chk receives exactly the value its own execution drew (multiset of drawn and checked values per rule equal, no value seen twice), a reader that never assigned never gets a value, a conditional writer fails whenever its flag is off even if an earlier call or a concurrent execution assigned the local, a shared field written by an earlier rule of a sorted call is seen by the later rule, an injected forRange key holds the last key afterwards - for the host, for the looping rule and for later rules of a sorted call. Two pointers are injected under the names X and Y, which differ only in case from the locals: they must keep their values and never serve as the locals. Non-trivial: >= 2 rules (or >= 2 concurrent executions of one rule) share a local name and a writer was parked; distinct by case hash",
 		New:  func() interface{} { return &C15Case{} },
 		Gen: func(t *rapid.T) interface{} {
 			c := &C15Case{QuiesMs: 2}
 			n := uni(t, "nrules", 2, 7)
-			kinds := []string{"writer", "writer", "writer", "reader", "reader", "reader", "cond", "cond", "sharedw", "sharedr", "wpanic", "wpanic", "werror", "wretfail", "ranger", "ranger", "rangeinj", "seeinj", "objwriter", "objwriter"}
+			kinds := []string{"writer", "writer", "writer", "reader", "reader", "reader", "cond", "cond", "sharedw", "sharedr", "wpanic", "wpanic", "werror", "wretfail", "ranger", "ranger", "rangeinj", "seeinj", "objwriter", "objwriter", "writer3", "writer3"}
 			for i := 0; i < n; i++ {
 				c.Rules = append(c.Rules, C15Rule{Name: fmt.Sprintf("r%d", i), Sal: int64(uni(t, fmt.Sprintf("sal%d", i), -2, 4)),
 					Kind: kinds[uni(t, fmt.Sprintf("kind%d", i), 0, len(kinds)-1)], Local: []string{"x", "x", "y"}[uni(t, fmt.Sprintf("local%d", i), 0, 2)]})
@@ -159,7 +168,7 @@ func init() {
 			c.Gates = map[string]int{}
 			for _, r := range c.Rules {
 				switch {
-				case (r.Kind == "writer" || r.Kind == "objwriter" || r.Kind == "cond") && pct(t, "hold_"+r.Name, 45):
+				case (r.Kind == "writer" || r.Kind == "writer3" || r.Kind == "objwriter" || r.Kind == "cond") && pct(t, "hold_"+r.Name, 45):
 					c.Gates[r.Name] = obs.Hold
 				case pct(t, "yield_"+r.Name, 30):
 					c.Gates[r.Name] = obs.Yield
@@ -180,6 +189,7 @@ func checkC15(ci interface{}, x *Ctx) {
 	apis["uniq"] = func(n string) int64 { v := atomic.AddInt64(&ctr, 1); env.log.Add("U", n, v); return v }
 	apis["chk"] = func(n string, v int64) { env.log.Add("C", n, v) }
 	apis["chk2"] = func(n string, v int64) { env.log.Add("C2", n, v) }
+	apis["H3"] = &c15Host3{In: &c15Inner3{log: env.log}}
 	apis["newobj"] = func(n string) *c15Obj { v := atomic.AddInt64(&ctr, 1); env.log.Add("U", n, v); return &c15Obj{id: v} }
 	apis["leak"] = func(n string, v interface{}) { env.log.Add("LEAK", n, 0) }
 	apis["wrote"] = func(n string, v int64) { env.log.Add("W", n, v) }
@@ -354,11 +364,11 @@ func checkC15(ci interface{}, x *Ctx) {
 				x.Violation("stale-local/"+shape, "call %d %s: conditional writer %q did not assign %q in this call (flag off) but read the value %v (from an earlier call or another execution)\ntrace %v", ci2, cc.Call, r.Name, r.Local, ch, trace)
 				return
 			}
-			if (r.Kind == "writer" || r.Kind == "objwriter" || (r.Kind == "cond" && cc.Flag)) && fmt.Sprint(d) != fmt.Sprint(ch) {
+			if (r.Kind == "writer" || r.Kind == "writer3" || r.Kind == "objwriter" || (r.Kind == "cond" && cc.Flag)) && fmt.Sprint(d) != fmt.Sprint(ch) {
 				x.Violation("foreign-value/"+shape, "call %d %s: rule %q drew %v for its local %q but its executions read back %v\ntrace %v", ci2, cc.Call, r.Name, d, r.Local, ch, trace)
 				return
 			}
-			if startCount[r.Name] >= 2 && (r.Kind == "writer" || r.Kind == "objwriter" || r.Kind == "cond") {
+			if startCount[r.Name] >= 2 && (r.Kind == "writer" || r.Kind == "writer3" || r.Kind == "objwriter" || r.Kind == "cond") {
 				x.Class("same-rule-executed-concurrently")
 				if parked {
 					x.NonTrivial()
